@@ -471,7 +471,9 @@ func derived3(full bool) []leaf3 {
 	// predicates behind the explicit bounds check: the predicate alone is an unbounded half space / slab / everything
 	for _, bx := range [][2]c3{{model3d.XYZ(-1, -2, 0.5), model3d.XYZ(2, 1, 3)}, {model3d.XYZ(0, 0, 0), model3d.XYZ(1, 1e-3, 1)}, {model3d.XYZ(-4, -4, -4), model3d.XYZ(-3, -3.5, -1)}} {
 		mn, mx := bx[0], bx[1]
-		in := func(p c3) bool { return p.X >= mn.X && p.Y >= mn.Y && p.Z >= mn.Z && p.X <= mx.X && p.Y <= mx.Y && p.Z <= mx.Z }
+		in := func(p c3) bool {
+			return p.X >= mn.X && p.Y >= mn.Y && p.Z >= mn.Z && p.X <= mx.X && p.Y <= mx.Y && p.Z <= mx.Z
+		}
 		near := func(p c3) bool {
 			for i := 0; i < 3; i++ {
 				if math.Abs(p.Array()[i]-mn.Array()[i]) <= 1e-9 || math.Abs(p.Array()[i]-mx.Array()[i]) <= 1e-9 {
